@@ -41,29 +41,19 @@ def init(aux=None):
     _impl.update(Dataset=Dataset, SS=ScoringScheme, CF=ConsensusFeature, RAA=RankAggAlgorithm, aux=aux)
 
 
-class Recorder:
-    """Wraps an algorithm, records every consensus it returns (first ranking) and counts calls."""
+def Recorder(inner, log):
+    """An object of a dynamic SUBCLASS of the wrapped algorithm's class sharing its state: it records every consensus
+    it returns (first ranking).  isinstance checks, attributes and names behave as for the wrapped algorithm."""
+    base = type(inner)
 
-    def __new__(cls, inner, log):
-        RAA = _impl["RAA"]
-
-        class _Rec(RAA):
-            def __init__(self):
-                self.inner, self.log = inner, log
-
-            def compute_consensus_rankings(self, dataset, scoring_scheme, return_at_most_one_ranking=True,
-                                           bench_mode=False):
-                c = self.inner.compute_consensus_rankings(dataset, scoring_scheme, return_at_most_one_ranking,
-                                                          bench_mode)
-                self.log.append(c.consensus_rankings[0])
-                return c
-
-            def get_full_name(self):
-                return self.inner.get_full_name()
-
-            def is_scoring_scheme_relevant_when_incomplete_rankings(self, scoring_scheme):
-                return self.inner.is_scoring_scheme_relevant_when_incomplete_rankings(scoring_scheme)
-        return _Rec()
+    def compute_consensus_rankings(self, dataset, scoring_scheme, return_at_most_one_ranking=True, bench_mode=False):
+        c = base.compute_consensus_rankings(self, dataset, scoring_scheme, return_at_most_one_ranking, bench_mode)
+        log.append(c.consensus_rankings[0])
+        return c
+    cls = type("Recorded" + base.__name__, (base,), {"compute_consensus_rankings": compute_consensus_rankings})
+    obj = cls.__new__(cls)
+    obj.__dict__.update(inner.__dict__)
+    return obj
 
 
 def build(cfg, log_starts, log_aux, kseed):
@@ -128,6 +118,24 @@ ALL_CONFIGS = ["Borda", "BordaBid", "Copeland", "PickAPerm", "KwikSort", "BioCon
                "ExactPulp", "Exact(opt)", "Exact(noopt)", "ExactCplex(opt)", "ExactCplex(noopt)", "ExactOptim1"]
 
 
+STARTERS = {"BioCo": ["Borda"], "Bio[Borda]": ["Borda"], "Bio[Copeland,KwikSort]": ["Copeland"],
+            "Bio[PickAPerm]": ["PickAPerm"], "Bio[PickAPerm,Copeland]": ["PickAPerm", "Copeland"],
+            "Bio[Borda,BordaBid]": ["Borda", "BordaBid"], "Bio[Borda,Copeland,KwikSort]": ["Borda", "Copeland"]}
+
+
+def _independent_starts(cfg, ds, ss, am):
+    """consensus of every deterministic CONFIGURED starting algorithm, computed by a fresh instance outside the run
+    (the run itself may have dropped or replaced a starter)"""
+    out = []
+    for name in STARTERS.get(cfg, []):
+        try:
+            c = build(name, [], [], 0).compute_consensus_rankings(ds, ss, True)
+            out.append(am.ranking(c.consensus_rankings[0]))
+        except Exception:
+            pass
+    return out
+
+
 def _score_obs(getter, unit):
     try:
         v = getter()
@@ -151,9 +159,14 @@ def run_case(case):
     from . import standin_cplex
     Dataset, SS, CF = _impl["Dataset"], _impl["SS"], _impl["CF"]
     rec = dict(case)
-    rec.update(out="", K=[], dup=0, rep=[0, 0, "absent"], rep0=[0, 0, "absent"], opt=0, starts=[], auxcalls=0,
+    rec.update(out="", K=[], dup=0, starts2=[], rep=[0, 0, "absent"], rep0=[0, 0, "absent"], opt=0, starts=[], auxcalls=0,
                wpart=[], pred="", complete=0, cop={"s2": [], "ved": []}, desc=0)
     B, T, unit = case["sch"]
+    # optional second limb: the scheme given to the library is H * (B, T) + (B2, T2), far beyond TLC's 32-bit integers;
+    # TLC evaluates the two limbs separately (the score is linear in the penalties) and compares pairs
+    H = int(case.get("H", 0))
+    B2, T2 = case.get("sch2", [[0] * 6, [0] * 6])
+    rec.update(H=H, sch2=[list(B2), list(T2)], rep2=[0, 0, "absent"])
     am = core.Absmap(case["naming"], case["D"])
     if case.get("env") == "standin":
         standin_cplex.install()
@@ -162,7 +175,10 @@ def run_case(case):
     log_starts, log_aux = [], []
     try:
         ds = Dataset.from_raw_list(am.raw_dataset(case["D"]))
-        ss = SS(core.scheme_float(B, T, unit))
+        if H:
+            ss = SS([[float(H * b + b2) for b, b2 in zip(B, B2)], [float(H * t + t2) for t, t2 in zip(T, T2)]])
+        else:
+            ss = SS(core.scheme_float(B, T, unit))
         rec["complete"] = 1 if ds.is_complete else 0
     except Exception as ex:
         rec["out"] = "error:construct:" + type(ex).__name__
@@ -232,15 +248,29 @@ def run_case(case):
         if case.get("env") == "standin":
             standin_cplex.uninstall()
     rec["out"] = "consensus"
+    rec["starts2"] = _independent_starts(case["cfg"], ds, ss, am)
     try:
         rec["K"] = [am.ranking(r) for r in cons.consensus_rankings]
     except Exception as ex:
         rec["out"] = "error:project:" + type(ex).__name__
         return rec
     feats = cons.features
-    rec["rep0"] = _score_obs(lambda: (None if feats.get(CF.KEMENY_SCORE, None) in (None, -1, -1.0)
-                                      else feats.get(CF.KEMENY_SCORE)), unit)
-    rec["rep"] = _score_obs(lambda: cons.kemeny_score, unit)
+    rec["rep0"] = [0, 0, "absent"] if H else _score_obs(
+        lambda: (None if feats.get(CF.KEMENY_SCORE, None) in (None, -1, -1.0) else feats.get(CF.KEMENY_SCORE)), unit)
+    if H:
+        # change of representation only: value = q * H + r with 0 <= r < H, both limbs logged
+        try:
+            v = float(cons.kemeny_score)
+            if v == int(v) and 0 <= v < 2 ** 53:
+                q, r = divmod(int(v), H)
+                rec["rep"] = [q, 1, "ok"] if q < 2 ** 31 else [0, 0, "absent"]
+                rec["rep2"] = [r, 1, "ok"]
+            else:
+                rec["rep"] = [0, 0, "ok"]
+        except Exception as ex:
+            rec["rep"] = [0, 0, "exc:" + type(ex).__name__]
+    else:
+        rec["rep"] = _score_obs(lambda: cons.kemeny_score, unit)
     try:
         rec["desc"] = 1 if isinstance(cons.description(), str) else 0
     except Exception:
